@@ -195,6 +195,12 @@ class CanonicalEvolutionDesigner(vza.PartiallySerializableDesigner,
 
   def load(self, metadata: vz.Metadata):
     self._population = type(self._population).recover(metadata)
+    # The number of trials seen decides whether the designer still samples or
+    # already evolves the population; it must survive a restart.
+    if 'num_trials_seen' in metadata:
+      self._num_trials_seen = int(metadata['num_trials_seen'])
 
   def dump(self) -> vz.Metadata:
-    return self._population.dump()
+    metadata = self._population.dump()
+    metadata['num_trials_seen'] = str(self._num_trials_seen)
+    return metadata
